@@ -28,7 +28,7 @@ QUICK_MCS = ["MC_StorageModels_vecA_q", "MC_StorageModels_mapN", "MC_StorageMode
 
 def package(pid, recs):
     src = sc.contract_source() + "".join(sc.test_source("h%d" % r["id"], r["ops"]) for r in recs)
-    return {"id": pid, "files": {"src/main.sw": src}, "std": True, "profile": "debug", "want": ["diag"]}
+    return {"id": pid, "files": {"src/main.sw": src}, "manifest": cg.manifest(pid), "profile": "debug", "want": ["diag"]}
 
 
 def trace_record(rec, obs):
